@@ -58,6 +58,9 @@ def value(src, p):
         return (n, n + 1, n + 2)
     if vt == "list2":
         return [n, -n]
+    if vt == "mixed":                  # the kind of value differs from cell to cell
+        k = (p[0] + p[1] + p[2]) % 3
+        return n if k == 0 else (f"s{n}" if k == 1 else n / 4.0)
     return n
 
 
@@ -120,8 +123,10 @@ def run_case(case):
                 continue
             src = op["src"]
             kind = src["kind"]
-            if src.get("vtype") in ("tuple", "list2", "cells") and kind not in ("const", "callable"):
-                src = dict(src, vtype="int")        # sequence-valued cells only through generators (callable / constant)
+            if src.get("vtype") in ("tuple", "list2", "cells", "mixed") and kind not in ("const", "callable", "list"):
+                src = dict(src, vtype="int")        # sequence-valued / mixed cells only through generators and plain lists
+            if kind == "list" and src.get("vtype") == "cells":
+                src = dict(src, vtype="tuple")
             exp = [value(src, p) for p in cells]
             keep = None
             if kind == "callable" and src.get("vtype") == "cells":
@@ -184,7 +189,7 @@ def run_case(case):
                 raise Violation("generator-calls", f"{where}: the generator was called for {len(seen)} positions, expected each of the {n} cells once")
             if keep is not None:           # overwrite the caller's buffer: must not show through
                 for i in range(len(keep)):
-                    keep[i] = -777 if not isinstance(keep[i], str) else "overwritten"
+                    keep[i] = -777 if not isinstance(keep[i], (str, tuple, list)) else "overwritten"
                 labels.add("aliasing-probe")
         elif op["op"] == "remove":
             name = NAMES[int(op["name"]) % 4]
@@ -224,7 +229,7 @@ def strategy(tier):
     src = st.fixed_dictionaries({
         "kind": st.sampled_from(["callable", "callable", "list", "array", "const", "lookup", "lookup"]),
         "mult": st.sampled_from([1, 1, 3, -2, 7]), "off": st.integers(-50, 50),
-        "vtype": st.sampled_from(["int", "int", "float", "str", "tuple", "list2", "cells"]),
+        "vtype": st.sampled_from(["int", "int", "float", "str", "tuple", "list2", "cells", "mixed"]),
         "lowdim": st.booleans(), "numpy": st.booleans()})
     name = st.integers(0, 3)
     op = wone_of(st.fixed_dictionaries({"op": st.just("add"), "name": name, "src": src}),
